@@ -490,6 +490,41 @@ def run(ctx):
               how="`callbacks = list(callbacks)` (not None) dominates every hand-over to _optimize_sequential / executor.submit",
               where=where(opt, hitu[0].ast) if hitu else None)
 
+    # the stop request of an earlier invocation (the flag is part of the Study's state, pickled with it) does not reach this one: the flag
+    # is cleared before the loops start, not only when the previous call ended
+    resets = [n for n in go.stmt_nodes() if n.kind == "stmt" and isinstance(n.ast, ast.Assign) and any(norm(t) == "study._stop_flag" for t in n.ast.targets)
+              and isinstance(n.ast.value, ast.Constant) and n.ast.value.value is False]
+    ctx.check(bool(resets) and all(go.dominated_by(u, resets) for u in users), "R02.5", opt.short, "stop-flag-cleared-before-the-loop",
+              message="_optimize hands over to the trial loop without having cleared study._stop_flag in this invocation: a Study restored from a pickle / deepcopy taken "
+                      "while a stop was requested (checkpoint callback next to MaxTrialsCallback) runs 0 of its n_trials trials and returns normally",
+              how="`study._stop_flag = False` dominates every hand-over to _optimize_sequential / executor.submit")
+
+    # what runs after the trial was stored (the finally block of _run_trial) must not raise what its callees document: Study.best_trial
+    # raises ValueError when no feasible trial is complete yet, so the 'finished' log line has to expect that
+    lf = p.func("optuna.study.study.Study._log_completed_trial")
+    from rules._jfile import _protecting_handlers
+    lpm = parent_map(lf.node)
+    bt = p.func("optuna.study.study.Study.best_trial")
+    raised = set()
+    for x in own_nodes(bt.node):
+        if isinstance(x, ast.Raise) and x.exc is not None:
+            e_ = x.exc.func if isinstance(x.exc, ast.Call) else x.exc
+            raised.add((dotted(e_) or "").split(".")[-1])
+    n_bt = 0
+    for x in own_nodes(lf.node):
+        if isinstance(x, ast.Attribute) and x.attr in ("best_trial", "best_value", "best_params") and isinstance(x.value, ast.Name) and x.value.id == "self":
+            n_bt += 1
+            hs = _protecting_handlers(x, lpm)
+            caught = {nm for h in hs for nm in (handler_names(h.type) if h.type is not None else ["BaseException"])
+                      if not any(isinstance(y, ast.Raise) for st in h.body for y in ast.walk(st))}
+            need = "ValueError" in raised
+            ctx.check((not need) or bool(caught & {"ValueError", "Exception", "BaseException"}), "R02.5", lf.short, "post-store-log-expects-no-best-trial",
+                      message="Study._log_completed_trial reads self.best_trial outside a try/except ValueError: best_trial raises ValueError while no feasible trial is complete "
+                              "(constrained study whose first trials are infeasible), and this method runs in the finally block of _run_trial after the trial was stored - "
+                              "optimize() raises regardless of `catch`, skips the callbacks and the remaining trials",
+                      how="the read sits in a try body with a non-re-raising `except ValueError`", where=where(lf, x))
+    ctx.floor("R02.5", "best_trial_reads_in_completion_log", n_bt, 1)
+
     # public wrappers forward their arguments unchanged
     tf = p.func("optuna.study.study.Study.tell")
     tc = [c for c in own_nodes(tf.node) if isinstance(c, ast.Call) and dotted(c.func) == "_tell_with_warning"]
